@@ -178,7 +178,9 @@ def check_dual(leaf):
 
     viol, runs = [], 0
     hist, nchain = leaf["hist"], leaf["cfg"]["nchain"]
-    for mu in (math.log(0.7), 0.3, 0.0):
+    # the recursion is covariant under a shift of the regularisation target (all iterates move with it), so the short
+    # histories of the specification also decide very small / very large step sizes (a target of +-30: steps ~1e+-13)
+    for mu in (math.log(0.7), 0.3, 0.0, 30.0, -30.0):
         for red_name, red in (("arithmetic", mici.adapters.arithmetic_mean_log_step_size_reducer),
                               ("geometric", mici.adapters.geometric_mean_log_step_size_reducer),
                               ("min", mici.adapters.min_log_step_size_reducer)):
